@@ -11,7 +11,7 @@ package mpb
 //@ typeinv Bar props C02 C09 self.cancel != nil && self.frameCh != nil && self.operateState != nil && self.bsOk != nil && self.container != nil && self.ctx != nil && !isext(self.bsOk)
 
 //@ func newBar
-//@   props    C02 C09 C06 C17 C15
+//@   props    C02 C09 C06 C17 C15 C14
 //@   requires container != nil && bs != nil
 //@   ensures  result != nil && fresh(result)
 //@   ensures  result.priority == bs.priority && result.container == container
@@ -719,6 +719,7 @@ package mpb
 //@   loop 2   invariant forall(j, rangeindex + 1, len(column), sent(column[j]) == old(sent(column[j])))
 //@   ensures  answered@C15: forall(j, 0, len(column), recvd(column[j]) > old(recvd(column[j])) ==> sent(column[j]) > old(sent(column[j])))
 //@   ensures  maximum: forall(j, 0, len(column), sent(column[j]) > old(sent(column[j])) ==> lastSent(column[j]) >= lastRecvd(column[j]) && sent(column[j]) == old(sent(column[j])) + 1)
+//@   ensures  allornone: forall(j, 0, len(column), forall(k, 0, len(column), sent(column[j]) > old(sent(column[j])) ==> sent(column[k]) > old(sent(column[k])))) // once the hand-out has started every participant gets its answer
 //@   ensures  common: forall(j, 0, len(column), forall(k, 0, len(column), sent(column[j]) > old(sent(column[j])) && sent(column[k]) > old(sent(column[k])) ==> lastSent(column[j]) == lastSent(column[k])))
 
 // One distributor per column. That every column holds non-nil, pairwise distinct channels is
@@ -765,7 +766,7 @@ package mpb
 //@   ensures  prefix: forall(k, 0, old(len(deref(pq))), deref(pq)[k] == old(deref(pq)[k]))
 
 //@ func (*priorityQueue).Pop
-//@   props    C06 C05 C02
+//@   props    C06 C05 C02 C17
 //@   requires pq != nil && len(deref(pq)) >= 1 && deref(pq)[len(deref(pq)) - 1] != nil
 //@   modifies mem("priorityQueue"), elems("*Bar"), Bar.index
 //@   ensures  shrunk: len(deref(pq)) == old(len(deref(pq))) - 1
@@ -1563,15 +1564,20 @@ package mpb
 //@              && called("BarFillerOnComplete") == old(called("BarFillerOnComplete"))
 //@ func BarExtender
 //@   props    C02 C15 C04
+//@   ensures  none: !okfiller(filler) ==> result == nil
+//@   ensures  option: okfiller(filler) ==> fnof(result) == fn("BarExtender$1") && bound(result, "fn") == returned("makeExtenderFunc", 0) && calledWith("makeExtenderFunc", 0) == filler && calledWith("makeExtenderFunc", 1) == rev
 //@ func BarExtender$1
-//@   props    C02 C09
+//@   props    C02 C09 C15 C04
 //@   requires s != nil && fn != nil
 //@   modifies s.extender
 //@   ensures  s.extender != nil
+//@   ensures  installed: s.extender == fn
 //@ func makeExtenderFunc
-//@   props    C02 C15
+//@   props    C02 C15 C04
 //@   requires okfiller(filler)
 //@   ensures  result != nil
+//@   ensures  below: !rev ==> fnof(result) == fn("makeExtenderFunc$1") && bound(result, "filler") == filler
+//@   ensures  above: rev ==> fnof(result) == fn("makeExtenderFunc$2") && fnof(bound(result, "base")) == fn("makeExtenderFunc$1") && bound(bound(result, "base"), "filler") == filler
 
 // C10: the state published through Bar.bs (stored once, just before bsOk is closed) is read
 // by getters on any goroutine; the only function that still writes it is the late render
@@ -1878,8 +1884,9 @@ package mpb
 // an empty extra row would be counted by the frame and erased from above on the next one
 //@ func makeExtenderFunc$1
 //@   props    C15 C02 C04 C13
-//@   loop 1   invariant len(rows) >= len(in(rows)) && forall(k, len(in(rows)), len(rows), rows[k] != buf && len(content(rows[k])) >= 1)
+//@   loop 1   invariant len(rows) >= len(in(rows)) && forall(k, len(in(rows)), len(rows), rows[k] != buf && len(content(rows[k])) >= 1 && endswith(content(rows[k]), 10))
 //@   ensures  wholelines: forall(k, len(in(rows)), len(result0), len(content(result0[k])) >= 1)
+//@   ensures  terminated: forall(k, len(in(rows)), len(result0), endswith(content(result0[k]), 10)) // every extender row ends its line: what follows (the next row, written text) starts on a row of its own
 //@   requires okfiller(filler) && buf != nil && stat.AvailableWidth >= 0 && stat.AvailableWidth <= 1<<31 && stat.RequestedWidth <= 1<<31
 //@   ensures  onerror: result1 != nil ==> dw(written(buf)) == 0 && result0 == rows
 //@   ensures  drained: result1 == nil ==> dw(written(buf)) == 0
@@ -1889,9 +1896,18 @@ package mpb
 //@   requires stat.AvailableWidth >= 0
 //@   modifies pkgstate("decor"), content(), written(), bFiller.tip, sFiller.count, sent("chan int"), recvd("chan int")
 
+// the reversing extender (rows above the bar): the base extender is asked once, with the same
+// statistics and rows; its error comes back unchanged (C15: a failing extender stops the
+// container like any render error) and on success the rows come back in reverse order
 //@ func makeExtenderFunc$2
-//@   props    C15 C02
+//@   props    C15 C02 C04
 //@   requires base != nil && stat.AvailableWidth >= 0
+//@   ensures  asked: called("makeExtenderFunc$2.base") == old(called("makeExtenderFunc$2.base")) + 1 && calledWith("makeExtenderFunc$2.base", 0) == stat && calledWith("makeExtenderFunc$2.base", 1) == in(rows)
+//@   ensures  error: result1 == returned("makeExtenderFunc$2.base", 1) && result0 == returned("makeExtenderFunc$2.base", 0)
+//@   loop 1   invariant left + right == len(rows) - 1 && left <= right + 1 && len(rows) == entry(1, len(rows))
+//@   loop 1   invariant forall(k, 0, left, rows[k] == entry(1, rows[len(rows) - 1 - k]) && rows[len(rows) - 1 - k] == entry(1, rows[k]))
+//@   loop 1   invariant forall(k, left, right + 1, rows[k] == entry(1, rows[k]))
+//@   ensures  reversed: result1 == nil ==> forall(k, 0, len(result0), result0[k] == entry(1, returned("makeExtenderFunc$2.base", 0)[len(result0) - 1 - k]))
 
 //@ func (*Progress).AddBar
 //@   props    C02 C09
